@@ -748,7 +748,7 @@ func CanonicalIsomorphAllocated(n, m int, neighbours [][]int, op *CanonicalOrder
 				//Can we step there?
 				//Heuristic 2
 				if count > 0 && ints.HasPrefix(firstLeafPath, path[:len(path)-1]) {
-					if firstLeafOrbits[choiceElement] >= 0 {
+					if orbitAlreadyVisited(firstLeafOrbits, op, choicePosition, choiceElement, space) {
 						skipDeage = true
 						continue jLoop
 					}
@@ -758,7 +758,7 @@ func CanonicalIsomorphAllocated(n, m int, neighbours [][]int, op *CanonicalOrder
 				//Do the same for the currentBest
 				//Heuristic 2
 				if count > 0 && ints.HasPrefix(currentBestPath, path[:len(path)-1]) {
-					if currentBestOrbits[choiceElement] >= 0 {
+					if orbitAlreadyVisited(currentBestOrbits, op, choicePosition, choiceElement, space) {
 						skipDeage = true
 						continue jLoop
 					}
@@ -792,6 +792,18 @@ func CanonicalIsomorphAllocated(n, m int, neighbours [][]int, op *CanonicalOrder
 }
 
 //Below are various helper functions.
+
+//orbitAlreadyVisited returns true if an element of the cell containing position pos which lies after pos (and so has already been visited as the children of a node are visited in descending position) is in the same orbit as the element in position pos.
+func orbitAlreadyVisited(orbits disjoint.Set, op *CanonicalOrderedPartition, pos int, elem int, buf []int) bool {
+	root := orbits.FindBuffered(elem, buf)
+	cellEnd := op.binDividers[op.inCell[elem]]
+	for p := pos + 1; p < cellEnd; p++ {
+		if orbits.FindBuffered(op.order[p], buf) == root {
+			return true
+		}
+	}
+	return false
+}
 
 //zeroOut sets all the entries of a to be 0.
 //Note that this will be optimised to a memclr call.
